@@ -142,6 +142,14 @@ func main() {
 		}()
 		emit(Case{Kind: "cmord", Code: code, A: []int64{int64(a)}, B: []int64{int64(b)}, Obs: []int64{obsO}})
 		emit(Case{Kind: "cmeq", Code: code, A: []int64{int64(a)}, B: []int64{int64(b)}, Obs: []int64{obsE}})
+		// ContraMap over a From instance whose relation is not symmetric: the base instance gets the projections in
+		// the order of the arguments
+		asymE := eq.From[int](func(x, y int) bool { return x == y+int(code) })
+		asymO := ord.From[int](func(x, y int) ord.Ordering { return ord.Int.Compare(x, y+int(code)) })
+		cme3 := eq.ContraMap[int, int]{Eq: asymE, ContraMap: pure.ContraMap[int, int](proj(code))}
+		cmo3 := ord.ContraMap[int, int]{Ord: asymO, ContraMap: pure.ContraMap[int, int](proj(code))}
+		emit(Case{Kind: "cmfromeq", Code: code, A: []int64{int64(a)}, B: []int64{int64(b)}, Obs: []int64{b2i(cme3.Equal(a, b))}})
+		emit(Case{Kind: "cmfromord", Code: code, A: []int64{int64(a)}, B: []int64{int64(b)}, Obs: []int64{int64(cmo3.Compare(a, b))}})
 		// From wrappers with argument-order-sensitive functions: a == b+code, compare(a, b+code)
 		fe := eq.From[int](func(x, y int) bool { return x == y+int(code) })
 		emit(Case{Kind: "fromeq", Code: code, A: []int64{int64(a)}, B: []int64{int64(b)}, Obs: []int64{b2i(fe.Equal(a, b))}})
